@@ -9,7 +9,7 @@ behaviour that the Lean models take from this file by hand; a change to any of t
 obligation for the properties that rest on them."""
 import re, sys, json, os
 
-PAT = re.compile(r'\b(continue|break|return\b[^;{}]*|process::exit\([^)]*\)|std::process::exit\([^)]*\))\s*;|((?:\w*errors|results)\.push\([^;]*\));|(if\s+!?\s*cfg\.dry_run[^{]*)\{|([^;{}]*\?)\s*;')
+PAT = re.compile(r'\b(continue|break|return\b[^;{}]*|process::exit\([^)]*\)|std::process::exit\([^)]*\))\s*;|(if\s+!?\s*cfg\.dry_run[^{]*)\{|([^;{}]*\?)\s*;')
 
 
 def strip_tests(s):
@@ -24,12 +24,23 @@ def inventory(repo):
     src = re.sub(r'#\[cfg\(quadlet_rs_verif\)\][^\n]*\n[^\n]*\n', '\n', src)
     fns_at = [(m.start(), m.group(1)) for m in re.finditer(r'\bfn\s+(\w+)', src)]
     sites = []
-    for m in PAT.finditer(src):
+    found = [(m.start(), next(g for g in m.groups() if g)) for m in PAT.finditer(src)]
+    # error-list pushes: the call with its balanced argument list (it may end a statement or a match arm)
+    for m in re.finditer(r'\b(?:\w*errors|results)\.push\(', src):
+        depth, j = 0, m.end() - 1
+        while j < len(src):
+            depth += src[j] == '('
+            depth -= src[j] == ')'
+            j += 1
+            if depth == 0:
+                break
+        found.append((m.start(), src[m.start():j]))
+    # a push inside a longer `?`/return statement is already part of that site's text; keep both (they are distinct facts)
+    for start, text in sorted(found):
         cur = '<top>'
         for pos, name in fns_at:
-            if pos <= m.start():
+            if pos <= start:
                 cur = name
-        text = next(g for g in m.groups() if g)
         kind = 'try' if text.rstrip().endswith('?') else re.match(r'\s*(\w+(?:::\w+)*|if)', text).group(1)
         sites.append(dict(fn=cur, kind=kind, stmt=re.sub(r'\s+', ' ', text.strip())[:160]))
     seen = {}
